@@ -289,6 +289,36 @@ _STDLIB_PURE = {   # side-effect-free stdlib helpers the repository imports by n
     ('operator', 'ge'): operator.ge, ('operator', 'xor'): operator.xor,
 }
 
+_STDLIB_PURE_DONE = False
+
+
+def _listify(f):
+    return lambda *a, **k: list(f(*a, **k))
+
+
+import bisect as _bisect  # noqa: E402
+import math as _math  # noqa: E402
+import os as _os  # noqa: E402
+import string as _string  # noqa: E402
+
+_PURE_MODULES = {   # `import X` / `from X import y` of side-effect-free stdlib routines, as far as the repository may use them
+    'bisect': {k: getattr(_bisect, k) for k in ('bisect', 'bisect_left', 'bisect_right')},
+    'math': {k: getattr(_math, k) for k in ('ceil', 'floor', 'sqrt', 'log', 'log2', 'gcd', 'trunc', 'fabs', 'isnan', 'isinf', 'isfinite', 'inf', 'pi')},
+    'string': {k: getattr(_string, k) for k in ('digits', 'ascii_letters', 'ascii_uppercase', 'ascii_lowercase', 'hexdigits', 'punctuation')},
+    'operator': {k: getattr(operator, k) for k in ('add', 'sub', 'mul', 'floordiv', 'truediv', 'mod', 'lt', 'le', 'gt', 'ge', 'eq', 'ne', 'xor', 'or_', 'and_',
+                                                  'not_', 'neg', 'itemgetter', 'attrgetter', 'lshift', 'rshift', 'getitem', 'contains', 'is_', 'is_not', 'truth')},
+    'itertools': {'product': lambda *a, **k: list(_it.product(*a, **k)), 'chain': None, 'repeat': None, 'islice': lambda it, *a: list(_it.islice(it, *a)),
+                  'zip_longest': lambda *a, **k: list(_it.zip_longest(*a, **k)), 'groupby': lambda it, key=None: [(k_, list(g)) for k_, g in _it.groupby(it, key)],
+                  'accumulate': _listify(_it.accumulate), 'starmap': _listify(_it.starmap), 'takewhile': _listify(_it.takewhile),
+                  'dropwhile': _listify(_it.dropwhile), 'compress': _listify(_it.compress), 'count': _it.count, 'cycle': _it.cycle,
+                  'permutations': _listify(_it.permutations), 'combinations': _listify(_it.combinations), 'pairwise': _listify(_it.pairwise),
+                  'filterfalse': _listify(_it.filterfalse)},
+    'functools': {'reduce': _ft.reduce, 'partial': _ft.partial},
+    'collections': {'defaultdict': collections.defaultdict, 'namedtuple': collections.namedtuple, 'OrderedDict': collections.OrderedDict,
+                    'Counter': collections.Counter, 'deque': collections.deque},
+}
+_PURE_MODULES['os.path'] = {k: getattr(_os.path, k) for k in ('splitext', 'basename', 'dirname', 'join', 'split', 'sep')}
+
 
 def ev(node, env):
     """Evaluate expression `node` in `env` (dict name -> value / Namespace / Sym)."""
@@ -585,12 +615,18 @@ def module_consts(forest, modname, _stack=()):
                 elif a.name == 'decimal':
                     import decimal as _decimal
                     env[a.asname or 'decimal'] = Namespace('decimal', {'Decimal': _decimal.Decimal, 'ROUND_HALF_UP': _decimal.ROUND_HALF_UP})
+                elif a.name == 'os':
+                    env[a.asname or 'os'] = Namespace('os', {'path': Namespace('os.path', dict(_PURE_MODULES['os.path'])), 'linesep': '\n', 'sep': '/'})
+                elif a.name in _PURE_MODULES and (a.asname or a.name) not in env:
+                    env[a.asname or a.name] = Namespace(a.name, _pure_module(a.name))
         elif isinstance(st, ast.ImportFrom):
             for a in st.names:
                 if st.module == 'collections' and a.name == 'namedtuple':
                     env[a.asname or a.name] = collections.namedtuple
                 elif (st.module, a.name) in _STDLIB_PURE:
                     env[a.asname or a.name] = _STDLIB_PURE[(st.module, a.name)]
+                elif st.module in _PURE_MODULES and a.name in _pure_module(st.module):
+                    env[a.asname or a.name] = _pure_module(st.module)[a.name]
         elif isinstance(st, (ast.FunctionDef, ast.AsyncFunctionDef, ast.ClassDef)):
             env[st.name] = FuncRef(modname, st.name, st)
         elif isinstance(st, ast.Assign):
@@ -619,6 +655,14 @@ def module_consts(forest, modname, _stack=()):
     ns = Namespace(modname, env, failed, exprs)
     forest._cache[key] = ns
     return ns
+
+
+def _pure_module(name):
+    d = dict(_PURE_MODULES[name])
+    for k in list(d):
+        if d[k] is None and (name, k) in _STDLIB_PURE:
+            d[k] = _STDLIB_PURE[(name, k)]
+    return d
 
 
 def const(forest, modname, name):
